@@ -25,6 +25,20 @@ def fn(crate, name, file_end):
     return bs[0]
 
 
+def node_matcher(crate):
+    """(body, hosted): the function that matches one e-node against the pattern node — `ematch_node`, or, when that
+    helper was folded into its only caller, the recursive matcher itself (hosted=True: what were parameters of the
+    helper are now values of the host: the e-node is an element of enodes_applied(i), the pattern node a field of
+    the pattern)"""
+    try:
+        return fn(crate, "ematch_node", "rewrite/ematch.rs"), False
+    except mir.AnchorMissing:
+        host = fn(crate, "ematch_impl", "rewrite/ematch.rs")
+        if not any(c.callee and c.callee.name == "get_group_compatible_weak_variants" for c in host.all_calls()):
+            raise
+        return host, True
+
+
 def _loop_over(b, callname):
     for lp in C.iterator_loops(b):
         if role_mentions_call(lp[1], callname):
@@ -140,6 +154,9 @@ def m2(ctx):
         ctx.check(strip_role(b.role_of_operand(c.args[1])) == ("param", "i"), "enodes-of-queried-invocation", "e-nodes are those of the queried invocation i",
                   "the e-node loop enumerates %s" % role_str(b.role_of_operand(c.args[1])), where_of(b, c.bb))
     nodes = [c for c in b.calls if c.callee and c.callee.name == "ematch_node"]
+    if not nodes and node_matcher(crate)[1]:
+        # the node matcher was folded into this function: its entry is the variant enumeration
+        nodes = [c for c in b.calls if c.callee and c.callee.name == "get_group_compatible_weak_variants" and not b.blocks[c.bb]["cleanup"]]
     ctx.floor("ematch_node call sites", len(nodes), 1)
     for c in nodes:
         C.check_only_allowed_skips(ctx, b, c.bb,
@@ -150,7 +167,8 @@ def m2(ctx):
 @rule("M3", doc="the node matcher ranges over all weak variants and all children; skips: shape mismatch, slot-bijection conflict")
 def m3(ctx):
     crate = ctx.lib()
-    b = mir.inline_view(crate, fn(crate, "ematch_node", "rewrite/ematch.rs"), keep=MATCHER_ANCHORS)
+    b0, hosted = node_matcher(crate)
+    b = mir.inline_view(crate, b0, keep=MATCHER_ANCHORS)
     lp = _loop_over(b, "get_group_compatible_weak_variants")
     if lp is None:
         raise mir.AnchorMissing("loop over get_group_compatible_weak_variants in ematch_node")
@@ -165,8 +183,10 @@ def m3(ctx):
               "ematch_node iterates %s: on some path the candidates are not the full variant enumeration of the e-node. Which grandchild binds which pattern variable depends on the orientation of a symmetric child even when the child patterns mention no slot, so an instance that exists only as a group variant of the stored node is never matched" % role_str(src)[:120], where_of(b, lp[0]))
     v = [c for c in b.calls if c.callee and c.callee.name == "get_group_compatible_weak_variants"]
     for c in v:
-        C.check_only_allowed_skips(ctx, b, c.bb, [], "variant-enumeration", "enumerating the group-compatible variants of the e-node")
-        ctx.check(strip_role(b.role_of_operand(c.args[1])) == ("param", "nn"), "variants-of-the-enode", "variants are those of the e-graph node nn",
+        C.check_only_allowed_skips(ctx, b, c.bb, [("eq", lambda t, cond: t.startswith("discriminant(") and "discriminant(" in t[13:])] if hosted else [],
+                                   "variant-enumeration", "enumerating the group-compatible variants of the e-node")
+        a1 = strip_role(b.role_of_operand(c.args[1]))
+        ctx.check(a1 == ("param", "nn") or (hosted and role_mentions_call(a1, "enodes_applied") and role_mentions_call(a1, "next")), "variants-of-the-enode", "variants are those of the e-graph node nn",
                   "variants are enumerated for %s" % role_str(b.role_of_operand(c.args[1])), where_of(b, c.bb))
     ext = C.result_sinks(b, "out")
     ctx.floor("result extension sites in ematch_node", len(ext), 1)
@@ -174,7 +194,7 @@ def m3(ctx):
         C.check_only_allowed_skips(ctx, b, c.bb, [
             ("eq", lambda t, cond: "weak_shape(" in t and t.count("weak_shape(") >= 2),
             ("true", lambda t, cond: t.startswith("try_insert_compatible_slotmap_bij(")),
-        ], "ematch_node", "accepting a variant")
+        ] + ([("eq", lambda t, cond: t.startswith("discriminant(") and "discriminant(" in t[13:])] if hosted else []), "ematch_node", "accepting a variant")
     # children: zip of all applied ids with all child patterns, inner loops exhaustive
     loops = C.iterator_loops(b)
     zl = [l for l in loops if role_mentions_call(l[1], "zip") and role_mentions_call(l[1], "applied_id_occurrences")]
